@@ -328,8 +328,9 @@ func c02Check(c c02Case) engine.Result {
 				p := p0
 				res.Evals++
 				got, err := p.SetPayload(data)
-				if !bytes.Equal(data, keep) {
-					res.Failf("SetPayload|"+class+"|input-modified", "argument modified")
+				if !bytes.Equal(data, keep) || bufs[pat] != keeps[pat] {
+					// the argument is a prefix of a 201-byte array: neither its bytes nor the caller's bytes behind it may change
+					res.Failf("SetPayload|"+class+"|input-modified", "argument (or the caller's bytes behind it) modified")
 				}
 				if k.pay == nil {
 					if err == nil {
